@@ -100,7 +100,13 @@ package main
 // performs the corresponding check, whose own contract (below) says what was checked.
 // verdicts of the netblock test (lib/certgen) and of the automation-user lookup (uninterpreted here)
 //@ ghost func ipInCertNetblocks(cert *x509.Certificate, remoteAddr string) bool
-//@ ghost func automationUser(state *RuntimeState, user string) bool
+// the groups the directory reports for a user (uninterpreted; getUserGroups asks LDAP / gitdb)
+//@ ghost func directoryGroups(state *RuntimeState, user string) []string
+// "a configured automation identity": listed by name, or member of a listed automation group
+//@ opaque func automationUser(state *RuntimeState, user string) bool = (exists i int :: 0 <= i && i < len(state.Config.Base.AutomationUsers) && state.Config.Base.AutomationUsers[i] == user) || (exists g int, j int :: 0 <= g && g < len(state.Config.Base.AutomationUserGroups) && 0 <= j && j < len(directoryGroups(state, user)) && directoryGroups(state, user)[j] == state.Config.Base.AutomationUserGroups[g])
+//@ func (*RuntimeState).getUserGroups
+//@   assume ret1 == nil ==> same(ret0, directoryGroups(state, username))
+//@   modifies nothing
 // "the leaf of the first verified chain names `user`, the peer address lies inside its netblocks, `user` is an automation identity and its key is not deny-listed"
 //@ opaque func ipCertUser(state *RuntimeState, chains [][]*x509.Certificate, remoteAddr string, user string) bool = len(chains) > 0 && len(chains[0]) > 0 && user == chains[0][0].Subject.CommonName && ipInCertNetblocks(chains[0][0], remoteAddr) && automationUser(state, user) && !deniedFP(state, keyFP(chains[0][0].PublicKey))
 // "the configured back end accepted this password for this user" (backendAccepts: the uninterpreted verdict of the
@@ -150,7 +156,9 @@ package main
 //@   ensures userErr == nil && err == nil ==> ipCertUser(state, VerifiedChains, r.RemoteAddr, user)            #C06.ip-cert @C06,C11
 //@   loop 1 (userPubKeyFP string, rangeindex int) invariant (forall j int :: 0 <= j && j <= rangeindex ==> userPubKeyFP != state.Config.DenyTrustData.KeyDenyFPsshSha256[j])  #C06.ip-deny-scan @C06
 //@ func (*RuntimeState).isAutomationUser
-//@   assume ret1 == nil ==> ret0 == automationUser(state, username)
+//@   reveal automationUser
+//@   ensures ret1 == nil && ret0 ==> automationUser(state, username)                                       #C08.automation-identity-is-configured @C08,C06
+//@   modifies nothing
 //@ func (*RuntimeState).checkPasswordAttemptLimit
 //@   inline always
 //@ func checkUserPassword
